@@ -52,7 +52,7 @@ func NewGroupNoneMergedGroupResultSet(g []GroupResultSet) GroupResultSet {
 
 	if len(results) > 0 {
 		grs.gc.keys = km.Get()
-		grs.gc.heap.init(results)
+		grs.gc.init(results)
 	}
 
 	return grs
@@ -184,7 +184,10 @@ func (r *groupByMergedGroupResultSet) Next() GroupCursor {
 	}
 
 	r.gc.first = true
-	r.gc.heap.init(r.resultSets)
+	r.gc.init(r.resultSets)
+	if r.gc.err != nil {
+		r.err = r.gc.err
+	}
 
 	r.km.Clear()
 	for i := range r.groupCursors {
